@@ -21,9 +21,6 @@ theorem trimPrefix_append (p s : Path) : trimPrefix p (p ++ s) = s := by
 theorem kvKeyName_inj {a b : Path} : kvKeyName a = kvKeyName b ↔ a = b := by
   unfold kvKeyName; simp
 
-/-- the user-visible directory prefix: `p` with exactly one trailing "/" (the root "" stays "") -/
-def userDir (p : Path) : Path := if p = [] ∨ p.getLast? = some '/' then p else p ++ ['/']
-
 theorem dirPrefix_eq (p : Path) : dirPrefix p = kvKeyPrefix ++ userDir p := by
   have hk : kvKeyPrefix.getLast? = some '/' := by decide
   have hl : (kvKeyName p).getLast? = p.getLast?.or (some '/') := by
@@ -200,13 +197,6 @@ theorem get_put (kv : Kv) (k k' : Path) (v : Option Bytes) :
       · have : (ek != k) = true := by simpa using he
         simp only [List.filter_cons, this, if_true, List.lookup_cons]
         cases (k' == ek) <;> simp [ih]
-
-/-- SPEC of a history (most recent first): the last value stored under `k` unless deleted afterwards -/
-def lastWrite (kv0 : Kv) : List Op → Path → Option Bytes
-  | [], k => kv0.get (kvKeyName k)
-  | .store k' v :: h, k => if k = k' then some v else lastWrite kv0 h k
-  | .delete k' :: h, k => if k = k' then none else lastWrite kv0 h k
-  | _ :: h, k => lastWrite kv0 h k
 
 theorem get_runRev (kv0 : Kv) (h : List Op) (k : Path) :
     (runRev kv0 h).get (kvKeyName k) = lastWrite kv0 h k := by
@@ -446,7 +436,7 @@ theorem inv_tick (s : LockSt) (d : Nat) (h : Inv s) : Inv (lstep s (.tick d)).1 
 
 /-- installing a fresh token `now + td` (acquire over a free/expired lease, or renewal by the unique
 current holder) preserves the invariant -/
-theorem inv_install (s : LockSt) (i td : Nat) (h : Inv s) (hpos : 0 < td)
+theorem inv_install (s : LockSt) (i td : Nat) (hpos : 0 < td)
     (hothers : ∀ j c, j ≠ i → s.holder j = some c → c ≤ s.now) :
     Inv { s with lease := s.now + td, holders := setHolder s.holders i (s.now + td) } := by
   intro j c hc
@@ -476,7 +466,7 @@ theorem inv_lockTry (s : LockSt) (i ttl : Nat) (h : Inv s) : Inv (lstep s (.lock
     by_cases hl : s.lease > s.now
     · rw [lstep_lockTry_conflict s i ttl td hg hl]; exact h
     · rw [lstep_lockTry_ok s i ttl td hg hl]
-      apply inv_install s i td h (durationGuard_pos hg)
+      apply inv_install s i td (durationGuard_pos hg)
       intro j c _ hc
       rcases h j c hc with h1 | ⟨h2, _⟩
       · exact h1
@@ -495,7 +485,7 @@ theorem inv_renew (s : LockSt) (i ttl : Nat) (h : Inv s) : Inv (lstep s (.renew 
         have h1 : ¬ s.now > s.lease := fun e => he (Or.inr (Or.inl e))
         have h2 : s.lease = prev := Classical.byContradiction fun e => he (Or.inr (Or.inr e))
         rw [lstep_renew_ok s i ttl td prev hh hg h0 h1 h2]
-        apply inv_install s i td h (durationGuard_pos hg)
+        apply inv_install s i td (durationGuard_pos hg)
         intro j c hj hc
         rcases h j c hc with hle | ⟨hcl, huniq⟩
         · exact hle
@@ -562,7 +552,7 @@ theorem holders_exclusive (es : List Ev) (i j : Nat)
   obtain ⟨b, hb, hbl, _⟩ := hj
   rcases inv_reachable es i a ha with h | ⟨_, h⟩
   · omega
-  · exact (h j b hb hbl)
+  · exact (h j b hb hbl).symm
 
 /-- **C49 (locks).** While instance `i` validly holds the lock (acquired, lease unexpired, not unlocked),
 a lock attempt of ANY instance is refused with a conflict and changes nothing — `Lock` keeps polling. -/
